@@ -127,7 +127,7 @@ impl Path {
 
 impl File {
     /// File::options() is OpenOptions::new()
-    pub fn options() -> (r: OpenOptions) ensures !r.rd && !r.wr && !r.cr && !r.tr && !r.ap && !r.cn { OpenOptions::new() }
+    pub fn options() -> (r: OpenOptions) ensures !r.rd && !r.wr && !r.cr && !r.tr && !r.ap && !r.cn && r.md is None { OpenOptions::new() }
     /// open(O_RDONLY): follows links
     #[verifier::external_body]
     pub fn open(p: &Path, Tracked(w): Tracked<&mut World>) -> (r: std::result::Result<File, io::Error>)
@@ -167,6 +167,7 @@ impl File {
                                     inode: i, reach: true, tkind: NodeKind::File, ..final(w).paths[k] })
                             &&& final(w).files == old(w).files.insert(i, final(w).files[i])
                             &&& final(w).files[i].bytes.len() == 0 && final(w).files[i].data == ISet::<int>::empty()
+                            &&& final(w).files[i].mode == default_mode()
                         })
                 },
                 Err(_) => final(w).faults == old(w).faults + 1 && final(w).files == old(w).files && final(w).paths == old(w).paths
@@ -332,15 +333,20 @@ pub fn mknodat(dirfd: Cwd, p: &Path, ftype: rustix_fs::FileType, mode: Mode, dev
 
 /// std::fs::OpenOptions (builder).  `open` follows links; O_CREAT creates a fresh empty file when the path does not resolve;
 /// O_TRUNC empties the inode the path resolves to; without O_TRUNC an existing file keeps its content.
-pub struct OpenOptions { pub rd: bool, pub wr: bool, pub cr: bool, pub tr: bool, pub ap: bool, pub cn: bool }
+/// the mode a newly created file gets: 0666 masked by the process umask (an unknown constant), or the requested mode masked likewise
+pub uninterp spec fn default_mode() -> u32;
+pub uninterp spec fn created_mode(requested: u32) -> u32;
+pub struct OpenOptions { pub rd: bool, pub wr: bool, pub cr: bool, pub tr: bool, pub ap: bool, pub cn: bool, pub md: Option<u32> }
 impl OpenOptions {
-    pub fn new() -> (r: OpenOptions) ensures !r.rd && !r.wr && !r.cr && !r.tr && !r.ap && !r.cn { OpenOptions { rd: false, wr: false, cr: false, tr: false, ap: false, cn: false } }
+    pub fn new() -> (r: OpenOptions) ensures !r.rd && !r.wr && !r.cr && !r.tr && !r.ap && !r.cn && r.md is None { OpenOptions { rd: false, wr: false, cr: false, tr: false, ap: false, cn: false, md: None } }
     pub fn read(self, v: bool) -> (r: OpenOptions) ensures r == (OpenOptions { rd: v, ..self }) { OpenOptions { rd: v, ..self } }
     pub fn write(self, v: bool) -> (r: OpenOptions) ensures r == (OpenOptions { wr: v, ..self }) { OpenOptions { wr: v, ..self } }
     pub fn create(self, v: bool) -> (r: OpenOptions) ensures r == (OpenOptions { cr: v, ..self }) { OpenOptions { cr: v, ..self } }
     pub fn truncate(self, v: bool) -> (r: OpenOptions) ensures r == (OpenOptions { tr: v, ..self }) { OpenOptions { tr: v, ..self } }
     pub fn append(self, v: bool) -> (r: OpenOptions) ensures r == (OpenOptions { ap: v, ..self }) { OpenOptions { ap: v, ..self } }
     pub fn create_new(self, v: bool) -> (r: OpenOptions) ensures r == (OpenOptions { cn: v, ..self }) { OpenOptions { cn: v, ..self } }
+    /// std::os::unix::fs::OpenOptionsExt::mode
+    pub fn mode(self, m: u32) -> (r: OpenOptions) ensures r == (OpenOptions { md: Some(m), ..self }) { OpenOptions { md: Some(m), ..self } }
     #[verifier::external_body]
     pub fn open(&self, p: &Path, Tracked(w): Tracked<&mut World>) -> (r: std::result::Result<File, io::Error>)
         ensures
@@ -362,6 +368,7 @@ impl OpenOptions {
                                     inode: i, reach: true, tkind: NodeKind::File, ..final(w).paths[k] })
                             &&& final(w).files == old(w).files.insert(i, final(w).files[i])
                             &&& final(w).files[i].bytes.len() == 0 && final(w).files[i].data == ISet::<int>::empty()
+                            &&& final(w).files[i].mode == (if self.md is Some { created_mode(self.md->Some_0) } else { default_mode() })
                             &&& final(w).trace == old(w).trace.push(Event::CreateTrunc(k, i))
                         })
                 },
